@@ -92,6 +92,14 @@ func c15baseTypes(num func(t string, vals []string) c15type) []c15type {
 				}
 				return "s", s
 			}},
+		// names that look like numbers, and like the values of other names
+		{"enum-num", "enumeration { enum \"1\" { value 5; } enum \"5\" { value 1; } enum \"07\"; enum \"-2\"; }", func(r *core.Rng) string { return core.Pick(r, []string{"1", "5", "07", "-2"}) },
+			func(s string, ids bool) (string, string) {
+				if ids {
+					return "n", map[string]string{"1": "5", "5": "1", "07": "6", "-2": "7"}[s]
+				}
+				return "s", s
+			}},
 		{"bits", "bits { bit b0 { position 0; } bit b1 { position 1; } bit b5 { position 5; } }", func(r *core.Rng) string { return core.Pick(r, []string{"b0", "b0 b5", "b1 b5", ""}) }, func(s string, _ bool) (string, string) { return "s", s }},
 		{"identityref", "identityref { base idb; }", func(r *core.Rng) string { return core.Pick(r, []string{"d1", "d2"}) }, func(s string, _ bool) (string, string) { return "s", s }},
 		{"binary", "binary", func(r *core.Rng) string { return core.Pick(r, []string{"aGVsbG8gd29ybGQ=", "+//+", "/+8=", "AA==", "Zm9v"}) }, func(s string, _ bool) (string, string) { return "s", s }},
